@@ -3,11 +3,12 @@
 # the demonstration fails; without the change the demonstration passes. Results: /verif/notes/seed-confirm.log
 # usage: tools/confirm_seeds.sh C01 C02 ...
 export CARGO_NET_OFFLINE=true
-SHARED=/tmp/wt/shared-target
+WTBASE=${WTBASE:-/tmp/wt}
+SHARED=$WTBASE/shared-target
 mkdir -p $SHARED
-LOG=/verif/notes/seed-confirm.log
+LOG=${LOG:-/verif/notes/seed-confirm.log}
 for id in "$@"; do
-  WT=/tmp/wt/$id
+  WT=$WTBASE/$id
   [ -d "$WT" ] || continue
   rm -rf "$WT/target"; ln -sfn $SHARED "$WT/target"
   for k in 1 2; do
